@@ -3,7 +3,7 @@ import json, os
 from fractions import Fraction
 import numpy as np
 from harness import assignlib as A
-from harness.common import pmap, lean_query, guard, fr, to_np, VERIF
+from harness.common import pmap, lean_query, guard, fr, to_np, VERIF, safe_judge
 
 LEVEL = "translation_validation"
 ENTRY = "socialchoicekit.deterministic_allocation.MaximumWeightMatching.scf"
@@ -60,6 +60,7 @@ def exact_data(W):
     return all(v is None or Fraction(v).denominator in (1, 2, 4, 8, 16, 32, 64) for row in W for v in row)
 
 
+@safe_judge
 def judge(R, case, res, cert_ans):
     W, n, tag = case["W"], case["n"], case.get("tag", "corpus")
     fixer = 0 if case.get("zero", True) else 1
